@@ -343,11 +343,11 @@ def r5_thread_proc(report, repo):
 
 
 def run(report, repo):
-  group_table(report, repo, 'C03-R1')
-  r3_teardown_sequence(report, repo)
+  report.guard(group_table, report, repo, 'C03-R1')
+  report.guard(r3_teardown_sequence, report, repo)
   from sa.rules import c02  # pylint: disable=g-import-not-at-top
-  c02.r3_sequences(report, repo, rule='C03-R3s')
-  r4_stop_phase_executor(report, repo)
-  r5_thread_proc(report, repo)
+  report.guard(c02.r3_sequences, report, repo, rule='C03-R3s')
+  report.guard(r4_stop_phase_executor, report, repo)
+  report.guard(r5_thread_proc, report, repo)
   from sa.rules import c01  # pylint: disable=g-import-not-at-top
-  c01.r7_last_record(report, repo, rule='C03-R6')
+  report.guard(c01.r7_last_record, report, repo, rule='C03-R6')
